@@ -43,3 +43,5 @@ mod c21;
 mod c19;
 #[path = "/verif/harness/c20.rs"]
 mod c20;
+#[path = "/verif/harness/c24.rs"]
+pub mod c24;
